@@ -480,8 +480,11 @@ def C07(ctx):
     t0 = time.time()
     with cf.ThreadPoolExecutor(max_workers=min(len(jobs), max(2, NCPU - 4))) as ex:
         outs = list(ex.map(run, jobs))
+    # Each tracer process is its own comparison group: observations are compared with the reference position traced by
+    # the SAME process. (Across processes the counts legitimately differ by a few instructions - per-process hash seeds
+    # change collision patterns in the header and parameter maps - so a cross-process comparison would be a false alarm.)
     obs = []
-    for (rc, o), job in zip(outs, jobs):
+    for j, ((rc, o), job) in enumerate(zip(outs, jobs)):
         if rc != 0:
             raise ToolError("ptrace tracer failed: " + o[-400:])
         first = True
@@ -490,15 +493,8 @@ def C07(ctx):
             if e["who"] == "ref" and not first:
                 continue
             first = False
+            e["id"] = [e["id"], j]
             obs.append(e)
-    # keep one "ref" per group as the reference, turn the other slices' refs into ordinary observations
-    seen = set()
-    for e in obs:
-        k = json.dumps(e["id"])
-        if e["who"] == "ref":
-            if k in seen:
-                e["who"] = "ref-again"
-            seen.add(k)
     obs.sort(key=lambda e: (json.dumps(e["id"]), 0 if e["who"] == "ref" else 1))
     dt = os.path.join(d, "ct.ndjson")
     with open(dt, "w") as w:
@@ -517,8 +513,8 @@ def C07(ctx):
              "child builds the request, stops, and is single-stepped under ptrace through sigv4_validate_request only; "
              "instruction addresses inside the harness executable's text mapping are counted and hashed (FNV-1a). The "
              "binary supplies byte-wise early-exit memcmp/bcmp. Trace_Det requires every position's (count, digest) to "
-             "equal the reference position's; position 0 is traced twice as a control."
-             % ("{0,1,2,15,31,32,47,62,63}" if q else "0..63, 3 requests x 2 keys"),
+             "equal the reference position's as traced by the same tracer process; position 0 is traced twice as a control."
+             % ("{0,1,2,15,31,32,47,62,63}" if q else "0..63, 6 requests x 2 keys"),
         assumptions=["in-image instruction stream only (vdso/libc/ld.so excluded); says nothing about micro-architectural timing",
                      "a position whose trace differs from the reference is re-traced; only a difference that reproduces is reported"])
 
